@@ -1,0 +1,9 @@
+//go:build verif
+
+package keeper
+
+// Contracts for the deductive verifier in /verif (govc). Comment-only; compiled only with -tags verif.
+
+//@ contract (*Keeper).ClientStore
+//@   ensures prefix: prefixOf(result) == "clients/" + clientID + "/"
+//@   ensures same_store: viewBranch(result) == branch(ctx) && viewSvc(result) == svcid(k.storeService)
